@@ -4,13 +4,19 @@ package main
 
 import (
 	"bytes"
+	"crypto/sha256"
 	"fmt"
 	"os"
 	"os/user"
 	"path/filepath"
 	"regexp"
+	"sort"
 	"strings"
 	"time"
+
+	"github.com/cosmos/cosmos-proto/verifh/corpus"
+	"google.golang.org/protobuf/proto"
+	"google.golang.org/protobuf/types/pluginpb"
 )
 
 var (
@@ -208,6 +214,8 @@ func (g *genCtx) runC13(reqs []*genReq) {
 		}
 		o.count("c13/differs")
 	}
+	// (5) many repetitions of one request per spelling of the parameter (absent, empty, defaulted and explicit feature lists)
+	total += g.paramFormRepeats(reqs, func(i int) *runRes { return vs[i].base }, perts)
 	o.hist["c13/process-runs"] = total
 	o.hist["c13/runs-per-request"] = n + 1
 	// model lines: the two decision procedures whose order-independence is proved (feature order, message index)
@@ -237,6 +245,168 @@ func (g *genCtx) runC13(reqs []*genReq) {
 		r := j[0].(*genReq)
 		o.kase("GENFEAT", []string{"[" + j[1].(string) + "]", fmt.Sprint(r.proto3Requested(r.generate)), hasMsgFlag(r)}, featObs(observedFeatures(results[k]), r))
 	}
+}
+
+// ---- parameter forms x many fresh processes --------------------------------------------------------------------------------
+// A request is (proto files, file_to_generate, parameter); the parameter may be absent, present and empty, or spell the feature
+// list in several ways, and some spellings leave the feature set to the plugin's default ("all" -> whatever is registered, held
+// in a Go map). An order decided by map iteration shows up in a fraction of the runs only (a 2-entry map starts at the "other"
+// entry in 1 process of 8), so 1+5 runs per request are no search at all: here the SAME request is repeated N times in fresh
+// processes for every parameter form and the serialised responses are byte-compared with the first one of that form.
+// N = 40 (quick: a 1-in-8 event is missed with probability (7/8)^39 < 0.6% per form and schema) / 200 (thorough).
+type paramForm struct {
+	label string
+	set   func(req *pluginpb.CodeGeneratorRequest, rest string) // rest: the request's non-features parameters (M mappings ...)
+}
+
+func joinParam(a, b string) string {
+	switch {
+	case a == "":
+		return b
+	case b == "":
+		return a
+	}
+	return a + "," + b
+}
+
+var paramForms = []paramForm{
+	{"parameter absent", func(q *pluginpb.CodeGeneratorRequest, rest string) {
+		q.Parameter = nil
+		if rest != "" {
+			q.Parameter = proto.String(rest) // no features= among the parameters the schema needs
+		}
+	}},
+	{"parameter present and empty", func(q *pluginpb.CodeGeneratorRequest, rest string) { q.Parameter = proto.String(rest) }},
+	{"features=all", func(q *pluginpb.CodeGeneratorRequest, rest string) { q.Parameter = proto.String(joinParam("features=all", rest)) }},
+	{"features=fast+protoc", func(q *pluginpb.CodeGeneratorRequest, rest string) {
+		q.Parameter = proto.String(joinParam("features=fast+protoc", rest))
+	}},
+	{"features=protoc+fast", func(q *pluginpb.CodeGeneratorRequest, rest string) {
+		q.Parameter = proto.String(joinParam("features=protoc+fast", rest))
+	}},
+	{"features=all+fast", func(q *pluginpb.CodeGeneratorRequest, rest string) { q.Parameter = proto.String(joinParam("features=all+fast", rest)) }},
+	{"paths=import (no features)", func(q *pluginpb.CodeGeneratorRequest, rest string) { q.Parameter = proto.String(joinParam("paths=import", rest)) }},
+	{"features=fast", func(q *pluginpb.CodeGeneratorRequest, rest string) { q.Parameter = proto.String(joinParam("features=fast", rest)) }},
+}
+
+func respHash(r *runRes) string {
+	if r == nil {
+		return "-"
+	}
+	h := sha256.Sum256(r.stdout)
+	return fmt.Sprintf("sha256:%x(%d bytes, exit %d)", h[:8], len(r.stdout), r.exit)
+}
+
+// which requests: the smallest schemas with messages (every feature leaves its trace in the output, processes are cheap), the
+// smallest multi-file one, and (thorough) more of each plus random schemas
+func (g *genCtx) paramFormSchemas(reqs []*genReq, base func(i int) *runRes) []int {
+	type cand struct{ i, size int }
+	var single, multi, random []cand
+	for i, r := range reqs {
+		b := base(i)
+		if b == nil || b.resp == nil || b.resp.Error != nil || len(b.resp.File) == 0 || r.expect != corpus.ExpFiles || hasMsgFlag(r) != "msg" {
+			continue
+		}
+		c := cand{i, len(r.request(r.param, r.generate))}
+		switch {
+		case r.class == "random":
+			random = append(random, c)
+		case r.proto3Requested(r.generate) >= 2:
+			multi = append(multi, c)
+		default:
+			single = append(single, c)
+		}
+	}
+	for _, cs := range [][]cand{single, multi} {
+		sort.SliceStable(cs, func(a, b int) bool { return cs[a].size < cs[b].size })
+	}
+	nS, nM, nR := 3, 2, 1
+	if g.cfg.thorough() {
+		nS, nM, nR = 6, 3, 3
+	}
+	var out []int
+	take := func(cs []cand, n int) {
+		for k := 0; k < n && k < len(cs); k++ {
+			out = append(out, cs[k].i)
+		}
+	}
+	take(single, nS)
+	take(multi, nM)
+	take(random, nR)
+	return out
+}
+
+func (g *genCtx) paramFormRepeats(reqs []*genReq, base func(i int) *runRes, perts []perturb) int {
+	o := g.o
+	n := 40
+	if g.cfg.thorough() {
+		n = 200
+	}
+	idx := g.paramFormSchemas(reqs, base)
+	type job struct {
+		r    *genReq
+		form paramForm
+		in   []byte
+	}
+	var jobs []job
+	for _, i := range idx {
+		r := reqs[i]
+		for _, f := range paramForms {
+			q := &pluginpb.CodeGeneratorRequest{}
+			if err := proto.Unmarshal(r.request(r.param, r.generate), q); err != nil {
+				panic(err)
+			}
+			f.set(q, dropFeatures(r.param))
+			in, err := proto.Marshal(q)
+			if err != nil {
+				panic(err)
+			}
+			jobs = append(jobs, job{r, f, in})
+		}
+	}
+	t0 := time.Now()
+	// one slot per (job, repetition): all processes are independent
+	results := make([][]*runRes, len(jobs))
+	for k := range results {
+		results[k] = make([]*runRes, n)
+	}
+	parallel(len(jobs)*n, 8, func(x int) {
+		k, rep := x/n, x%n
+		var env []string
+		dir := ""
+		if rep > 0 && len(perts) > 0 { // the first run in the runner's own environment, the others under the perturbed ones
+			env, dir = perts[rep%len(perts)].env, perts[rep%len(perts)].dir
+		}
+		results[k][rep] = runPlugin(g.plugin, jobs[k].in, env, dir)
+	})
+	for k, j := range jobs {
+		first := results[k][0]
+		o.count("c13/param-form/" + strings.ReplaceAll(j.form.label, "=", ":"))
+		differs := 0
+		var witness *runRes
+		wrep := 0
+		for rep := 1; rep < n; rep++ {
+			res := results[k][rep]
+			if !bytes.Equal(res.stdout, first.stdout) || res.exit != first.exit {
+				if witness == nil {
+					witness, wrep = res, rep
+				}
+				differs++
+			}
+		}
+		if witness == nil {
+			o.propOK += n - 1
+			o.nontrivial("c13/param-form/" + j.r.name + "/" + j.form.label)
+			continue
+		}
+		o.withKey(j.r.key()+"/repeat").prop("C13", false, fmt.Sprintf("%s: the same request (%s; file_to_generate %v) repeated in %d fresh processes gives %d responses that differ from the first: run 0 -> %s, run %d -> %s: %s",
+			j.r.name, j.form.label, j.r.generate, n, differs, respHash(first), wrep, respHash(witness), diffHint(first, witness)))
+		o.count("c13/param-form-differs")
+	}
+	o.hist["c13/param-form-seconds"] = int(time.Since(t0).Seconds())
+	o.hist["c13/param-form-schemas"] = len(idx)
+	o.hist["c13/param-form-repetitions"] = n
+	return len(jobs) * n
 }
 
 func schemaMentions(r *genReq, s string) bool {
